@@ -4,10 +4,13 @@
 
    The model (Model/Alloc.v): a step = four counter-based allocators (constraint rows with the
    sparse non-zero budget, broadphase pairs, contacts, compacted dofs) run over task lists, plus
-   the overflow word of forward._next_time.  [run_builders zskip c sparse adr0 rnz0 ov0 rq]:
+   the overflow word of forward._next_time.  [run_builders fx zskip c sparse adr0 rnz0 ov0 rq]:
    zskip = "collision() returns when naconmax == 0", c = capacities, adr0/rnz0 = stale content of
    efc_J_rowadr/efc_J_rownnz, ov0 = previous (sticky) overflow word, rq = requests in the order in
    which the schedule executes them (a schedule = any permutation, [is_schedule]).
+   [fx : nnzfix] = which repairs of the njmax_nnz class make_constraint contains (metadata zeroed
+   first / NJMAX_NNZ ORed directly when the nnz counter overflows / rownnz of out-of-range rows
+   cleared); [nofix] is the original code, the regenerated value is Gen/Skel_alloc.nnz_fix.
 
    The positive theorems are about ANY builder lists that are well-formed; the verdicts
    `wf_builders sparse row_builders` for the regenerated skeleton are computed at run time by
@@ -24,90 +27,89 @@ Local Open Scope Z_scope.
 (* a dropped request (row block, non-zero block, contact, pair, dof; also loop iterations never
    reached) always sets an overflow bit, for all capacities, stale metadata, schedules, requests *)
 Theorem C16_never_silent :
-  forall (rbs sbs : list builder) (sparse zskip : bool),
-    wf_builders sparse rbs = true -> wf_builders false sbs = true ->
+  forall (fx : nnzfix) (rbs sbs : list builder) (sparse zskip : bool),
+    fx_ok fx = true -> wf_builders_fx fx sparse rbs = true -> wf_builders false sbs = true ->
     forall c adr0 rnz0 ov0 rq,
-      collision_runs zskip c -> requests_use rbs sbs rq -> meta_ok (njmax c) sparse adr0 rnz0 ->
-      dropped (run_builders zskip c sparse adr0 rnz0 ov0 rq) = true ->
-      overflow_any (run_builders zskip c sparse adr0 rnz0 ov0 rq) = true.
-Proof. exact never_silent. Qed.
+      collision_runs zskip c -> requests_use_fx rbs sbs rq -> meta_ok (njmax c) sparse adr0 rnz0 ->
+      dropped (run_builders fx zskip c sparse adr0 rnz0 ov0 rq) = true ->
+      overflow_any (run_builders fx zskip c sparse adr0 rnz0 ov0 rq) = true.
+Proof. exact never_silent_fx. Qed.
 Print Assumptions C16_never_silent.
 
 Theorem C16_overflow_word_nonzero :
-  forall zskip c sparse adr0 rnz0 ov0 rq,
-    overflow_any (run_builders zskip c sparse adr0 rnz0 ov0 rq) = true ->
-    x_word (run_builders zskip c sparse adr0 rnz0 ov0 rq) <> 0.
-Proof. exact overflow_word_nonzero. Qed.
+  forall fx zskip c sparse adr0 rnz0 ov0 rq,
+    overflow_any (run_builders fx zskip c sparse adr0 rnz0 ov0 rq) = true ->
+    x_word (run_builders fx zskip c sparse adr0 rnz0 ov0 rq) <> 0.
+Proof. exact overflow_word_nonzero_fx. Qed.
 Print Assumptions C16_overflow_word_nonzero.
 
 (* no overflow bit: nothing was dropped, the rows are exactly the requested ones, and rows and
    counters equal those of any other run (ample capacities, other schedule) without overflow bit *)
 Theorem C16_no_overflow_same_as_ample :
-  forall (rbs sbs : list builder) (sparse zskip : bool),
-    wf_builders sparse rbs = true -> wf_builders false sbs = true ->
+  forall (fx : nnzfix) (rbs sbs : list builder) (sparse zskip : bool),
+    fx_ok fx = true -> wf_builders_fx fx sparse rbs = true -> wf_builders false sbs = true ->
     forall c c' adr0 rnz0 adr0' rnz0' ov0 ov0' rq rq',
       collision_runs zskip c -> collision_runs zskip c' ->
-      requests_use rbs sbs rq -> is_schedule rq rq' -> caps_nonneg c -> caps_nonneg c' ->
+      requests_use_fx rbs sbs rq -> is_schedule rq rq' -> caps_nonneg c -> caps_nonneg c' ->
       meta_ok (njmax c) sparse adr0 rnz0 -> meta_ok (njmax c') sparse adr0' rnz0' ->
-      overflow_any (run_builders zskip c sparse adr0 rnz0 ov0 rq) = false ->
-      overflow_any (run_builders zskip c' sparse adr0' rnz0' ov0' rq') = false ->
-      dropped (run_builders zskip c sparse adr0 rnz0 ov0 rq) = false /\
-      map content (s_rows (x_efc (run_builders zskip c sparse adr0 rnz0 ov0 rq))) = expected_rows (r_efc rq) /\
-      same_result (run_builders zskip c sparse adr0 rnz0 ov0 rq) (run_builders zskip c' sparse adr0' rnz0' ov0' rq').
-Proof. exact no_overflow_same_as_ample. Qed.
+      overflow_any (run_builders fx zskip c sparse adr0 rnz0 ov0 rq) = false ->
+      overflow_any (run_builders fx zskip c' sparse adr0' rnz0' ov0' rq') = false ->
+      dropped (run_builders fx zskip c sparse adr0 rnz0 ov0 rq) = false /\
+      map content (s_rows (x_efc (run_builders fx zskip c sparse adr0 rnz0 ov0 rq))) = expected_rows (r_efc rq) /\
+      same_result (run_builders fx zskip c sparse adr0 rnz0 ov0 rq) (run_builders fx zskip c' sparse adr0' rnz0' ov0' rq').
+Proof. exact no_overflow_same_as_ample_fx. Qed.
 Print Assumptions C16_no_overflow_same_as_ample.
 
 (* one allocator, no overflow bit: row i holds the i-th requested row, all rows complete, the
    counters are the sums of the requests *)
 Theorem C16_no_overflow_exact :
-  forall cap capz sparse ts adr0 rnz0,
-    wf_tasks sparse ts -> 0 <= cap -> 0 <= capz -> meta_ok cap sparse adr0 rnz0 ->
-    overflowed cap capz sparse (run_tasks cap capz sparse ts (init_st adr0 rnz0)) = false ->
-    let s := run_tasks cap capz sparse ts (init_st adr0 rnz0) in
+  forall fx cap capz sparse, fx_ok fx = true -> forall ts adr0 rnz0,
+    wf_tasks_fx fx sparse ts -> 0 <= cap -> 0 <= capz -> meta_ok cap sparse adr0 rnz0 ->
+    overflowed_fx fx cap capz sparse (efc_run fx cap capz sparse ts adr0 rnz0) = false ->
+    let s := efc_run fx cap capz sparse ts adr0 rnz0 in
     dropped_any s = false /\
     map content (s_rows s) = expected_rows ts /\
     map w_efcid (s_rows s) = zrange (total_rows ts) /\
     forallb w_complete (s_rows s) = true /\
     s_n s = total_rows ts /\ s_z s = znz sparse (total_nnz ts) /\
     s_ne s = tcount 0 ts /\ s_nf s = tcount 1 ts /\ s_nl s = tcount 2 ts.
-Proof. exact G_exact. Qed.
+Proof. exact GX_exact. Qed.
 Print Assumptions C16_no_overflow_exact.
 
 (* the overflow bits are a function of the totals only:  no bit  <->  everything fits *)
 Theorem C16_overflow_iff_does_not_fit :
-  forall cap capz sparse ts adr0 rnz0,
-    wf_tasks sparse ts -> 0 <= cap -> 0 <= capz ->
-    (sparse = true -> List.length adr0 = Z.to_nat cap /\ List.length rnz0 = Z.to_nat cap) ->
-    overflowed cap capz sparse (run_tasks cap capz sparse ts (init_st adr0 rnz0)) = false <->
+  forall fx cap capz sparse, fx_ok fx = true -> forall ts adr0 rnz0,
+    wf_tasks_fx fx sparse ts -> 0 <= cap -> 0 <= capz -> meta_ok cap sparse adr0 rnz0 ->
+    overflowed_fx fx cap capz sparse (efc_run fx cap capz sparse ts adr0 rnz0) = false <->
     fits cap capz sparse ts.
-Proof. exact overflow_iff_fits. Qed.
+Proof. exact GX_iff. Qed.
 Print Assumptions C16_overflow_iff_does_not_fit.
 
 (* the schedule changes neither whether a run overflows nor, when it does not, the multiset of
    rows, the counters and the overflow word (serves C11) *)
 Theorem C16_alloc_sched :
-  forall (rbs sbs : list builder) (sparse zskip : bool),
-    wf_builders sparse rbs = true -> wf_builders false sbs = true ->
+  forall (fx : nnzfix) (rbs sbs : list builder) (sparse zskip : bool),
+    fx_ok fx = true -> wf_builders_fx fx sparse rbs = true -> wf_builders false sbs = true ->
     forall c adr0 rnz0 adr0' rnz0' ov0 rq rq',
-      collision_runs zskip c -> requests_use rbs sbs rq -> is_schedule rq rq' -> caps_nonneg c ->
+      collision_runs zskip c -> requests_use_fx rbs sbs rq -> is_schedule rq rq' -> caps_nonneg c ->
       meta_ok (njmax c) sparse adr0 rnz0 -> meta_ok (njmax c) sparse adr0' rnz0' ->
-      overflow_any (run_builders zskip c sparse adr0 rnz0 ov0 rq) = false ->
-      overflow_any (run_builders zskip c sparse adr0' rnz0' ov0 rq') = false /\
-      x_word (run_builders zskip c sparse adr0' rnz0' ov0 rq') = x_word (run_builders zskip c sparse adr0 rnz0 ov0 rq) /\
-      same_result (run_builders zskip c sparse adr0 rnz0 ov0 rq) (run_builders zskip c sparse adr0' rnz0' ov0 rq').
-Proof. exact alloc_sched. Qed.
+      overflow_any (run_builders fx zskip c sparse adr0 rnz0 ov0 rq) = false ->
+      overflow_any (run_builders fx zskip c sparse adr0' rnz0' ov0 rq') = false /\
+      x_word (run_builders fx zskip c sparse adr0' rnz0' ov0 rq') = x_word (run_builders fx zskip c sparse adr0 rnz0 ov0 rq) /\
+      same_result (run_builders fx zskip c sparse adr0 rnz0 ov0 rq) (run_builders fx zskip c sparse adr0' rnz0' ov0 rq').
+Proof. exact alloc_sched_fx. Qed.
 Print Assumptions C16_alloc_sched.
 
 (* every row index, metadata index, non-zero range and slot index written is below its capacity,
    for ALL capacities (0 and negative included); needs only guards at least as strict as "does
    not fit" (serves C17) *)
 Theorem C16_alloc_in_bounds :
-  forall bs zskip c sparse adr0 rnz0 ov0 rq,
+  forall fx bs zskip c sparse adr0 rnz0 ov0 rq,
     safe_builders bs = true -> requests_use bs bs rq ->
-    let r := run_builders zskip c sparse adr0 rnz0 ov0 rq in
+    let r := run_builders fx zskip c sparse adr0 rnz0 ov0 rq in
     bounds_ok (njmax c) (njmax_nnz c) (x_efc r) /\
     bounds_ok (naconmax c) 0 (x_bp r) /\ bounds_ok (naconmax c) 0 (x_np r) /\ bounds_ok (nvmax c) 0 (x_dof r).
-Proof. exact alloc_in_bounds. Qed.
+Proof. exact alloc_in_bounds_fx. Qed.
 Print Assumptions C16_alloc_in_bounds.
 
 (* ---- the regenerated skeleton ---- *)
@@ -131,21 +133,30 @@ Theorem C16_current_dense_row_builders_wf_except_connect_weld :
 Proof. exact eq_refl. Qed.
 Print Assumptions C16_current_dense_row_builders_wf_except_connect_weld.
 
+(* dense Jacobian: every row builder of the current tree has an exact guard (F1 repaired) *)
+Theorem C16_current_dense_row_builders_wf : wf_builders_fx nnz_fix false row_builders = true.
+Proof. exact eq_refl. Qed.
+Print Assumptions C16_current_dense_row_builders_wf.
+
 (* the probes of forward._next_time / _compact_dofs are the ones the model copies *)
 Theorem C16_current_probes_match_model : probes_eqb overflow_probes expected_probes = true.
 Proof. exact eq_refl. Qed.
 Print Assumptions C16_current_probes_match_model.
 
 (* never-silent for the current tree, conditional on the verdicts that are computed at run time *)
+Theorem C16_current_fix_ok : fx_ok nnz_fix = true.
+Proof. exact eq_refl. Qed.
+Print Assumptions C16_current_fix_ok.
+
 Theorem C16_never_silent_current_tree :
   forall sparse,
-    wf_builders sparse row_builders = true -> wf_builders false slot_builders = true ->
+    wf_builders_fx nnz_fix sparse row_builders = true -> wf_builders false slot_builders = true ->
     forall c adr0 rnz0 ov0 rq,
       collision_runs collision_zero_cap_skip c ->
-      requests_use row_builders slot_builders rq -> meta_ok (njmax c) sparse adr0 rnz0 ->
-      dropped (run_builders collision_zero_cap_skip c sparse adr0 rnz0 ov0 rq) = true ->
-      overflow_any (run_builders collision_zero_cap_skip c sparse adr0 rnz0 ov0 rq) = true.
-Proof. exact (fun sparse => never_silent row_builders slot_builders sparse collision_zero_cap_skip). Qed.
+      requests_use_fx row_builders slot_builders rq -> meta_ok (njmax c) sparse adr0 rnz0 ->
+      dropped (run_builders nnz_fix collision_zero_cap_skip c sparse adr0 rnz0 ov0 rq) = true ->
+      overflow_any (run_builders nnz_fix collision_zero_cap_skip c sparse adr0 rnz0 ov0 rq) = true.
+Proof. exact (fun sparse => never_silent_fx nnz_fix row_builders slot_builders sparse collision_zero_cap_skip C16_current_fix_ok). Qed.
 Print Assumptions C16_never_silent_current_tree.
 
 (* ---- refutations (explicit builder values; replayed on the real code by bin/props/C16.py) ---- *)
@@ -153,13 +164,13 @@ Print Assumptions C16_never_silent_current_tree.
 (* F1  `if efcid >= njmax - 3: return`: one connect, njmax = 3 -> dropped, nefc = njmax, word 0 *)
 Theorem C16_never_silent_refuted_fit :
   exists b c rq, safe_builder b = true /\ wf_fit b = false /\ requests_use [b] [] rq /\
-    silent (run_builders false c false [] [] 0 rq) /\
-    s_n (x_efc (run_builders false c false [] [] 0 rq)) = njmax c.
+    silent (run_builders nofix false c false [] [] 0 rq) /\
+    s_n (x_efc (run_builders nofix false c false [] [] 0 rq)) = njmax c.
 Proof. exact never_silent_refuted_fit. Qed.
 Print Assumptions C16_never_silent_refuted_fit.
 
 Theorem C16_never_silent_refuted_fit_weld :
-  exists c rq, requests_use [weld_like] [] rq /\ silent (run_builders false c false [] [] 0 rq).
+  exists c rq, requests_use [weld_like] [] rq /\ silent (run_builders nofix false c false [] [] 0 rq).
 Proof. exact never_silent_refuted_fit_weld. Qed.
 
 (* any safe block guard that is not exactly "old + rows > cap" drops silently for some capacity *)
@@ -174,25 +185,25 @@ Print Assumptions C16_exact_fit_necessary.
 (* F2  rowadr stored after the nnz guard: two rows of 2 non-zeros, njmax_nnz = 3 -> word 0 *)
 Theorem C16_never_silent_refuted_nnz :
   exists b c rq, safe_builder b = true /\ wf_fit b = true /\ wf_nnz b = false /\ requests_use [b] [] rq /\
-    silent (run_builders false c true [0;0;0] [0;0;0] 0 rq) /\
-    s_zdrop (x_efc (run_builders false c true [0;0;0] [0;0;0] 0 rq)) <> [].
+    silent (run_builders nofix false c true [0;0;0] [0;0;0] 0 rq) /\
+    s_zdrop (x_efc (run_builders nofix false c true [0;0;0] [0;0;0] 0 rq)) <> [].
 Proof. exact never_silent_refuted_nnz. Qed.
 Print Assumptions C16_never_silent_refuted_nnz.
 
 Theorem C16_never_silent_refuted_nnz_contact :
   exists c rq adr0, requests_use [contact_like] [] rq /\ List.length adr0 = 64%nat /\
-    silent (run_builders false c true adr0 adr0 0 rq).
+    silent (run_builders nofix false c true adr0 adr0 0 rq).
 Proof. exact never_silent_refuted_nnz_contact. Qed.
 
 (* storing before the guard is not enough when the stored rownnz is the actual count (tendon) *)
 Theorem C16_never_silent_refuted_nnz_inexact :
-  exists c rq, requests_use [inexact_like] [] rq /\ silent (run_builders false c true [0;0] [0;0] 0 rq).
+  exists c rq, requests_use [inexact_like] [] rq /\ silent (run_builders nofix false c true [0;0] [0;0] 0 rq).
 Proof. exact never_silent_refuted_nnz_inexact. Qed.
 
 (* collision() returns before any allocation when naconmax = 0: needed contacts vanish, word 0 *)
 Theorem C16_never_silent_refuted_nacon0 :
   exists c rq, requests_use [] [slot_like] rq /\ wf_builders false [slot_like] = true /\
-    silent (run_builders true c false [] [] 0 rq).
+    silent (run_builders nofix true c false [] [] 0 rq).
 Proof. exact never_silent_refuted_nacon0. Qed.
 Print Assumptions C16_never_silent_refuted_nacon0.
 
@@ -200,3 +211,13 @@ Print Assumptions C16_never_silent_refuted_nacon0.
 Example C16_wf_satisfiable :
   wf_builders true [connect_fixed; contact_fixed] = true /\ wf_builders false [slot_like] = true.
 Proof. exact wf_satisfiable. Qed.
+
+(* the repaired make_constraint (zero the metadata, flag the counter, clear out-of-range rows)
+   needs only exact guards: the F2 witness is flagged, the exact fit is not *)
+Example C16_repaired_flags_F2 :
+  let rq := mkReqs [mkT joint_like [mkQ 0 0 0 2 2]; mkT joint_like [mkQ 0 1 0 2 2]] [] [] [] in
+  wf_builders_fx allfix true [joint_like; contact_like; inexact_like] = true /\
+  x_word (run_builders allfix false (mkCaps 3 3 0 0) true [5;5;5] [7;7;7] 0 rq) = 2 /\
+  s_rnz (x_efc (run_builders allfix false (mkCaps 3 3 0 0) true [5;5;5] [7;7;7] 0 rq)) = [2; 2; 0] /\
+  x_word (run_builders allfix false (mkCaps 3 4 0 0) true [5;5;5] [7;7;7] 0 rq) = 0.
+Proof. exact repaired_flags_F2. Qed.
